@@ -545,7 +545,13 @@ public:
                           ->getElementType()
                           .isConstQualified());
         O["extern_decl"] = !VD->isThisDeclarationADefinition();
-        if (VD->hasInit() && !VD->getType()->isArrayType())
+        // scalars, and tables of function pointers (their entries are call targets); other arrays are data
+        bool FnTable = false;
+        if (VD->getType()->isArrayType()) {
+          QualType ET = Ctx.getAsArrayType(VD->getType())->getElementType();
+          FnTable = ET->isFunctionPointerType();
+        }
+        if (VD->hasInit() && (!VD->getType()->isArrayType() || FnTable))
           O["init"] = expr(VD->getInit());
         Globals.push_back(std::move(O));
       } else if (auto *RD = dyn_cast<RecordDecl>(D)) {
